@@ -49,6 +49,8 @@ ALPHABET = [
     ("npscalar:ar_order", 0), ("npscalar:ma_order", 0), ("npscalar:lag", 0), ("npscalar:sampling", 0),
     ("npscalar:scale", 0), ("npscalar:NFFT", 0),
     ("inject:0:before", 1), ("inject:0:after", 0), ("inject:1:before", 1), ("inject:1:after", 0),
+    ("inject:0:before:LinAlgError", 0), ("inject:0:before:FloatingPointError", 0),
+    ("inject:0:before:ZeroDivisionError", 0), ("inject:1:after:LinAlgError", 0),
 ]
 ALPHA_NAMES = [a for a, _ in ALPHABET]
 CORE_NAMES = [a for a, c in ALPHABET if c]
@@ -307,7 +309,7 @@ class Run(object):
             setattr(p, op["attr"], getattr(p, op["attr"]))
             return None
         if k == "inject":
-            self.plane.arm(op["kernel"], op["when"])
+            self.plane.arm(op["kernel"], op["when"], op.get("exc", "MemoryError"))
             return None
         raise KeyError(k)
 
@@ -627,7 +629,12 @@ def concretize(aname, rng, run):
     if head == "conv":
         return {"op": "conv", "sides": parts[1]}
     if head == "inject":
-        return {"op": "inject", "kernel": int(parts[1]), "when": parts[2]}
+        op = {"op": "inject", "kernel": int(parts[1]), "when": parts[2]}
+        if len(parts) > 3:
+            op["exc"] = parts[3]
+        elif rng.random() < 0.3 and run.cfg.get("mode") in ("injected", "mixed") and len(run.ops) > 0:
+            op["exc"] = rng.choice(["LinAlgError", "FloatingPointError", "ZeroDivisionError", "OverflowError"])
+        return op
     vc = parts[1]
     if head == "npscalar":
         # the same kind of value an in-domain assignment would use, but as a numpy scalar
@@ -1011,7 +1018,7 @@ def describe(cfg, ops):
         elif k == "conv":
             out.append("get_converted_psd(%r)" % o["sides"])
         elif k == "inject":
-            out.append("inject(kernel%d,%s)" % (o["kernel"], o["when"]))
+            out.append("inject(kernel%d,%s%s)" % (o["kernel"], o["when"], "," + o["exc"] if o.get("exc") else ""))
         elif k == "read":
             out.append("psd")
         else:
